@@ -8,6 +8,7 @@ source's own key; `before_handle_events` is given polled events of the source on
 -/
 import Verif.Inv.Kernel
 import Verif.Model.Loop
+import Verif.Inv.Life
 
 namespace Verif.Props.C14
 open Verif.Loop Verif.Token Verif.Kernel
@@ -48,5 +49,16 @@ theorem walk_once (l : List Tok) (h : l.Nodup) (t : Tok) (ht : t ∈ l) : l.coun
 theorem bhe_filter_own (evs : List Event) (tok : Tok) :
     ∀ e ∈ evs.filter (fun e => sameSource e.key tok), sameSource e.key tok = true := by
   intro e he; simp only [List.mem_filter] at he; exact he.2
+
+/-! ### the whole loop -/
+
+/-- **After every history** of operations (top level, callbacks, idle callbacks), failed registrations, removals, slot
+    reuse and dispatches, the additional-lifecycle set holds every token at most once (finding F1 was a second entry) … -/
+theorem lifecycle_set_duplicate_free (ops : List Op) : (run ops).life.Nodup := Verif.Inv.Life.run_life_nodup ops
+
+/-- … so the walk over it in `dispatch_events` calls `before_sleep` / `before_handle_events` exactly once for each
+    listed source -/
+theorem hooks_once_per_listed_source (ops : List Op) (t : Tok) (ht : t ∈ (run ops).life) : (run ops).life.count t = 1 :=
+  walk_once _ (lifecycle_set_duplicate_free ops) t ht
 
 end Verif.Props.C14
